@@ -93,6 +93,29 @@ func runC16(c *Ctx) {
 				held := li.HeldBefore(acc.Sel)
 				all := held[frT+".rtLk"] == eng.LockW && held[frT+".kMapLk"] == eng.LockW && held[frT+".peerAddrsLk"] == eng.LockW
 				c.Check(K(rc.Name, "swap "+g.field), acc.Sel.Pos(), all, "the three views of a crawl are replaced in one critical section over all three locks (a reader holding all read locks never sees two crawls mixed)", "locks held here: "+held.String())
+				// what is installed is an object made for this crawl: readers keep using it under
+				// read locks while the next crawl refills (and first empties) the crawler's own
+				// working map, so a view that aliases a longer-lived object changes under them
+				fresh := false
+				if as, isAs := p.Parent(acc.Sel).(*ast.AssignStmt); isAs && len(as.Lhs) == 1 && len(as.Rhs) == 1 {
+					if o := eng.ObjOf(rinfo, as.Rhs[0]); o != nil {
+						defs := rc.AssignedFrom(o)
+						fresh = len(defs) >= 1
+						runsC := rc.Calls("(dht/crawler.Crawler).Run")
+						for _, d := range defs {
+							call, isCall := eng.Unparen(defOrNil(d)).(*ast.CallExpr)
+							if !isCall || !eng.NameIn(eng.CalleeName(rinfo, call), "builtin.make", "github.com/libp2p/go-libp2p-xor/trie.New") {
+								fresh = false
+								continue
+							}
+							// made after this crawl ran
+							if len(runsC) != 1 || !rc.CFG().Dominates(rc.CFG().LocOf(runsC[0]), rc.CFG().LocOf(call)) {
+								fresh = false
+							}
+						}
+					}
+				}
+				c.Check(K(rc.Name, "swap installs a fresh "+g.field), acc.Sel.Pos(), fresh, "each installed view is an object created after the crawl it describes (make / trie.New), never an alias of the crawler's reusable working map", "the installed value is not a fresh allocation of this crawl")
 			}
 		}
 		c.Check(K(rc.Name, "swaps"), rc.Pos(), nst == 3, "runCrawler replaces trie, key map and address map", "found "+itoa(nst)+" stores")
